@@ -74,3 +74,9 @@ Proof. vm_compute. reflexivity. Qed.
 
 Lemma merge_limits_ok : limits_ok gen_line_limit gen_dollar_limit = true.
 Proof. vm_compute. reflexivity. Qed.
+
+Lemma merge_clamps_ok : clamps_ok gen_limit_clamps = true.
+Proof. vm_compute. reflexivity. Qed.
+
+Lemma merge_lookup_ok : lookup_ok gen_add_calls gen_find_calls = true.
+Proof. vm_compute. reflexivity. Qed.
